@@ -3,11 +3,13 @@ package checks
 import (
 	"encoding/json"
 	"fmt"
+	"github.com/gebn/bmc"
 	"net"
 	"reflect"
 	"sort"
 	"strings"
 	"time"
+	"verif/env"
 
 	"github.com/gebn/bmc/pkg/dcmi"
 	"github.com/gebn/bmc/pkg/ipmi"
@@ -35,6 +37,12 @@ func init() {
 			return k + " " + msg, k != ""
 		}
 		return "unknown layer", false
+	}
+	Replayers["c07conn"] = func(raw json.RawMessage) (string, bool) {
+		var c c07ConnCase
+		json.Unmarshal(raw, &c)
+		k, msg := c07Conn(c)
+		return k + " " + msg, k != ""
 	}
 }
 
@@ -433,6 +441,72 @@ func c07Reject(kind string, in []byte) (string, string) {
 	return "", ""
 }
 
+// c07ConnCase: a response with a normal completion code whose body is cut short
+// of the layer's mandatory part, delivered through a connection (the route by
+// which the library itself decodes response bodies).
+type c07ConnCase struct {
+	Cmd       string `json:"cmd"`
+	InSession bool   `json:"in_session"`
+	Cut       int    `json:"cut"`
+}
+
+var c07ConnCmds = []struct {
+	name string
+	min  int // mandatory response data bytes (IPMI v2.0 command tables)
+	mk   func() ipmi.Command
+}{
+	{"GetDeviceID", 11, func() ipmi.Command { return &ipmi.GetDeviceIDCmd{} }},
+	{"GetChassisStatus", 3, func() ipmi.Command { return &ipmi.GetChassisStatusCmd{} }},
+	{"GetSystemGUID", 16, func() ipmi.Command { return &ipmi.GetSystemGUIDCmd{} }},
+	{"GetChannelAuthenticationCapabilities", 8, func() ipmi.Command {
+		return &ipmi.GetChannelAuthenticationCapabilitiesCmd{Req: ipmi.GetChannelAuthenticationCapabilitiesReq{ExtendedData: true, Channel: ipmi.ChannelPresentInterface, MaxPrivilegeLevel: ipmi.PrivilegeLevelAdministrator}}
+	}},
+	{"GetSDRRepositoryInfo", 14, func() ipmi.Command { return &ipmi.GetSDRRepositoryInfoCmd{} }},
+	{"ReserveSDRRepository", 2, func() ipmi.Command { return &ipmi.ReserveSDRRepositoryCmd{} }},
+}
+
+func c07Conn(c c07ConnCase) (string, string) {
+	w := newWorld(defaultConfig(), nil, nil)
+	var conn bmc.Connection = w.Conn
+	if c.InSession {
+		s, err := w.Conn.NewV2Session(w.Ctx, &bmc.V2SessionOpts{SessionOpts: bmc.SessionOpts{Username: "c07", Password: w.BMC.Cfg.Password, MaxPrivilegeLevel: ipmi.PrivilegeLevelAdministrator}, CipherSuites: []ipmi.CipherSuite{ipmi.CipherSuite3}})
+		if err != nil {
+			return "C07/conn/harness", "no session: " + err.Error()
+		}
+		conn = s
+	}
+	var mk func() ipmi.Command
+	for _, x := range c07ConnCmds {
+		if x.name == c.Cmd {
+			mk = x.mk
+		}
+	}
+	sent := 0
+	w.T.Menu = func(t *env.Transport, req []byte) []env.Answer {
+		return []env.Answer{env.Raw("normal-code-short-body", func(t *env.Transport, rx *ref.Rx) []byte {
+			sent++
+			if rx == nil || rx.Msg == nil || sent > 20 {
+				return t.BMC.Honest(rx)
+			}
+			body := rx.Body
+			if c.Cut < len(body) {
+				body = body[:c.Cut]
+			}
+			return t.BMC.Respond(rx, 0, body)
+		})}
+	}
+	cmd := mk()
+	var err error
+	var code ipmi.CompletionCode
+	if p := guard(func() { code, err = conn.SendCommand(w.Ctx, cmd) }); p != "" {
+		return "C07/conn/panic/" + siteKey(p), fmt.Sprintf("%+v: panic: %s", c, p)
+	}
+	if err == nil {
+		return "C07/conn/short-body-accepted/" + c.Cmd, fmt.Sprintf("%+v: the response carried completion code 0 and only %d data bytes; SendCommand returned (%v, nil) and response %+v", c, c.Cut, code, cmd.Response())
+	}
+	return "", ""
+}
+
 func runC07(r *rep.R) {
 	r.SetRule("for each response layer every byte of every base encoding takes all 256 values (so every flag bit and multi-bit field is enumerated), multi-byte fields (M, B, accuracy: all 1024; exponents 16x16; tolerance 64) are enumerated in full, optional tails are present/absent/partial at every length, ID strings cover 4 encodings x every character count 0..31 x content alphabets; each input is decoded by the library and by an independent reference decoder written from the specification tables and all fields compared; inputs with reserved bits set are decoded but not judged; rejection: every wrong value of each checksum, wrapper length fields beyond the data, every body shorter than the layer minimum. distinct = distinct (layer, input)")
 	var idx int64
@@ -612,6 +686,25 @@ func runC07(r *rep.R) {
 			m := append([]byte{}, wb...)
 			m[off], m[off+1] = byte(l), byte(l>>8)
 			doReject("wrapper-length", m)
+		}
+	}
+	for _, x := range c07ConnCmds {
+		for _, in := range []bool{false, true} {
+			for cut := 0; cut < x.min; cut++ {
+				c := c07ConnCase{Cmd: x.name, InSession: in, Cut: cut}
+				idx++
+				if !r.Mine(idx) {
+					continue
+				}
+				k, msg := c07Conn(c)
+				r.Eval(rep.H("conn", fmt.Sprintf("%+v", c)), true)
+				if k != "" {
+					r.Outcome("violation")
+					r.Violate(k, msg, "c07conn", c, func() bool { k2, _ := c07Conn(c); return k2 == k })
+				} else {
+					r.Outcome("short-body-through-a-connection:error")
+				}
+			}
 		}
 	}
 	r.Assume("reference decoders in harness/ref/codec.go are written from the IPMI v2.0 / DCMI 1.5 table layouts; where the repository documents a deliberate reading of an ambiguous table (PerMessageAuthentication polarity, DCMI SEL attribute byte order, 'unicode' strings read as 8-bit) the reference follows it")
